@@ -47,7 +47,9 @@ RULE = ("pipe: one case = one scenario (N<=3 sources x M<=4 destinations, proces
         "destination level, per-destination ack/nack/batch reply scripts, DLQ and source-ack fault scripts, natural / graceful / "
         "force stop at a random instant, GOMAXPROCS in {1,2,4,16}, scripted latencies) run once on the real node graph; every 4th "
         "scenario is from the malformed stream (empty / unknown / swapped / repeated acks, failing Write / Ack / DLQ calls, wrong "
-        "processor result shapes). Non-trivial = a record reached a destination and a source was acked and at least one of: DLQ write, "
+        "processor result shapes). A third of the well-formed scenarios with >= 2 destinations are from the batching family: one destination "
+        "rejects every record (all settled through the DLQ), the others buffer writes and acknowledge only when their batch is full or at "
+        "Stop(lastPosition) (size based batching), natural end or graceful stop at a random instant — the acks arrive during the node's drain. Non-trivial = a record reached a destination and a source was acked and at least one of: DLQ write, "
         "filter, >1 destination, >1 source, batch ack, early stop. condmerge: (match pattern, plugin reply kinds) with full / short / "
         "long / empty replies and condition errors; non-trivial = kept and pass-through records both present. distinct = distinct case lines")
 
